@@ -227,7 +227,7 @@ func reifyMap(opts *options, to reflect.Value, from *Config, validators []valida
 	for _, k := range from.fields.names() {
 		value := fields[k]
 		opts.activeFields = newFieldSet(parentFields)
-		key := reflect.ValueOf(k)
+		key := reflect.ValueOf(k).Convert(to.Type().Key())
 
 		old := to.MapIndex(key)
 		var v reflect.Value
